@@ -1,0 +1,11 @@
+//go:build verif
+
+// Machine-checked contracts for govc (see /verif/DESIGN.md). Comments only;
+// compiled only with the build tag "verif".
+
+package cache
+
+// C10: "not stored at all when that lifetime is zero or negative" - every Set in heimdall must
+// pass a positive TTL (ttlcache keeps an entry with ttl <= 0 forever).
+//@ iface (Cache).Set
+//@   requires ttl > 0
